@@ -120,10 +120,38 @@ def monC09 (o : Obs) : Bool :=
          | _ => o.rep == RRepeat.disabled)
       | none => o.rep == RRepeat.disabled
 
+/-- no mapping of the layout has an absorbing list -/
+def noAbsLayout (L : Layout) : Bool := L.all fun m => m.absorbing.isEmpty
+
+/-- C03: the mappings that qualify when `k` goes down: final trigger key `k`, and every trigger key
+held once `k` is down (`P'` = physically held after the press) -/
+def candidates (L : Layout) (P' : List Key) (k : Key) : List Mapping :=
+  L.filter fun m => finalKey? m == some k && m.frm.all (fun t => P'.contains t)
+
+/-- C03 (layouts without absorbing): a key going down fires exactly the last-listed qualifying
+mapping, whose non-modifier output keys get a press event in this step and whose modifier output
+keys are held afterwards (all of them held, with normal repeat); if none qualifies the key is passed
+through as the last event of the step, unless a mapping in effect mentions it (then nothing). -/
+def monC03 (o : Obs) : Bool :=
+  if !noAbsLayout o.L then true else
+  match o.e with
+  | Event.released _ => true
+  | Event.pressed k =>
+    if o.P.contains k then true
+    else match (candidates o.L o.P' k).getLast? with
+      | some m =>
+        o.fired == some m &&
+        m.to.all (fun y => if isActionKey y then pressedIn o.evs y else o.V'.contains y) &&
+        (!m.rep.isNormal || m.to.all (fun y => o.V'.contains y))
+      | none =>
+        if o.s.active.any (fun m => m.frm.contains k || m.to.contains k) then o.evs.isEmpty
+        else o.evs.getLast? == some (Event.pressed k)
+
 /-- all step monitors; returns the ids of the violated ones -/
 def stepMonitors (o : Obs) : List String :=
   (if monC01 o then [] else ["C01"]) ++
   (if monC02a o && monC02b o && monC02c o then [] else ["C02"]) ++
+  (if monC03 o then [] else ["C03"]) ++
   (if monC07 o then [] else ["C07"]) ++
   (if monC09 o then [] else ["C09"]) ++
   (if monC19 o then [] else ["C19"])
